@@ -19,7 +19,7 @@
     [m7_derive M s D] := forall i j < 7, is_derive (fun t => (M t)[i][j]) s D[i][j]   (Optics/Flow.v). *)
 From Coq Require Import Reals.
 From Coquelicot Require Import Coquelicot.
-From Cheetah Require Import Base.Mat Optics.Maps Optics.Flow Optics.Deriv Optics.DerivProofs Optics.DerivLimits Optics.DerivRefute.
+From Cheetah Require Import Base.Mat Optics.Maps Optics.Flow Optics.Deriv Optics.DerivProofs Optics.DerivLimits Optics.DerivRefute Optics.DerivBend.
 Open Scope R_scope.
 
 (** * the cosine-like / sine-like pair as functions of the strength, both signs *)
@@ -60,6 +60,29 @@ Theorem C05_sbend_dL : forall L k1 hx E, k1 <> 0 -> k1 + hx² <> 0 ->
   m7_derive (fun s => base_untilted s k1 hx E) L
             (rmmul (gen_sbend (k1 + hx²) (- k1) hx (beta_of E) (igamma2_of E)) (base_untilted L k1 hx E)).
 Proof. exact deriv_sbend_L. Qed.
+
+(** * combined-function sector-bend body (Dipole / RBend, cheetah method): d/dk1, d/dhx, d/dangle (hx = angle / length) *)
+Theorem C05_sbend_dk1 : forall L k1 hx E, k1 <> 0 -> k1 + hx² <> 0 ->
+  m7_derive (fun k => base_untilted L k hx E) k1 (dsbend_dk1 L k1 hx E).
+Proof. exact deriv_sbend_k1. Qed.
+Theorem C05_sbend_dhx : forall L k1 hx E, k1 <> 0 -> k1 + hx² <> 0 ->
+  m7_derive (fun h => base_untilted L k1 h E) hx (dsbend_dhx L k1 hx E).
+Proof. exact deriv_sbend_hx. Qed.
+Theorem C05_sbend_dangle : forall L k1 angle E, L <> 0 -> k1 <> 0 -> k1 + (angle / L)² <> 0 ->
+  m7_derive (fun a => base_untilted L k1 (a / L) E) angle (rmscale (/ L) (dsbend_dhx L k1 (angle / L) E)).
+Proof. exact deriv_sbend_angle. Qed.
+
+(** * finiteness: the derivatives exist in the stated domains; d/dk1 stays bounded on the punctured box around k1 = 0 *)
+Theorem C05_quad_dk1_finite : forall L k1 E i j, k1 <> 0 -> (i < 7)%nat -> (j < 7)%nat ->
+  ex_derive (fun k => m7nth (base_untilted L k 0 E) i j) k1.
+Proof. exact quad_dk1_finite. Qed.
+Theorem C05_sol_dk_finite : forall L k E i j, k <> 0 -> (i < 7)%nat -> (j < 7)%nat ->
+  ex_derive (fun t => m7nth (sol_body L t E) i j) k.
+Proof. exact sol_dk_finite. Qed.
+Theorem C05_quad_dk1_bounded_near_0 : forall L k1 E, k1 <> 0 -> 0 <= L -> Rabs k1 * (L * L) <= 1 ->
+  Rabs (m7nth (dquad_dk1 L k1 E) 0 0) <= L * L / 2 + L * L / 6 /\
+  Rabs (m7nth (dquad_dk1 L k1 E) 0 1) <= L * L * L / 6 + L * L * L / 30.
+Proof. exact quad_dk1_R11_R12_bounded. Qed.
 
 (** * drift (incl. R56) and correctors *)
 Theorem C05_drift_dL : forall L E,
@@ -178,6 +201,12 @@ Print Assumptions C05_dsinh_dk.
 Print Assumptions C05_quad_dk1.
 Print Assumptions C05_quad_dL.
 Print Assumptions C05_sbend_dL.
+Print Assumptions C05_sbend_dk1.
+Print Assumptions C05_sbend_dhx.
+Print Assumptions C05_sbend_dangle.
+Print Assumptions C05_quad_dk1_finite.
+Print Assumptions C05_sol_dk_finite.
+Print Assumptions C05_quad_dk1_bounded_near_0.
 Print Assumptions C05_drift_dL.
 Print Assumptions C05_hcor_dangle.
 Print Assumptions C05_vcor_dangle.
